@@ -40,6 +40,8 @@ var c15Templates = []struct{ src, cls string }{
 	{"Ldefine \"h\"RhelperLendRa:Ltemplate \"h\"R;", "defines-template"},
 	{"b:Ltemplate \"h\"R;", "uses-undefined-template"},
 	{"Lblock \"h\" .Rdefault-LendRc;", "defines-template"},
+	// a key the data map does not have: text/template prints "<no value>" and goes on
+	{"func L.nameR() { return L.valueR } // L.commentR", "missing-key"},
 }
 
 func (g *Gen) c15namers() (namer.NameSystems, []string) {
@@ -130,9 +132,16 @@ func c15(g *Gen) {
 			if c15ver == 2 {
 				kind = g.Pick([]string{"do", "do", "do", "append", "merge", "dup"})
 			}
+			forceMissingKey := k == 0 && i%7 == 3
+			if forceMissingKey {
+				kind = "do"
+			}
 			switch kind {
 			case "do":
 				t := c15Templates[g.R.Intn(len(c15Templates))]
+				if forceMissingKey {
+					t = c15Templates[len(c15Templates)-1]
+				}
 				src := strings.NewReplacer("L", srcL, "R", srcR).Replace(t.src)
 				// the oracle: text/template invoked directly
 				rec := &recWriter{}
